@@ -1022,7 +1022,7 @@ rentry_t gboost_entry(const int variant)
     const auto* d     = &data(dkind);
     auto        model = std::make_shared<gboost_model_t>();
     model->parameter("gboost::max_rounds") = 10;
-    model->parameter("gboost::patience")   = 3;
+    model->parameter("gboost::patience")   = 10;
     model->parameter("gboost::epsilon")    = 1e-6;
     rwlearners_t protos;
     if (variant == 0)
